@@ -173,6 +173,23 @@ def one(pseed, res):
         return g
     db_api.get_expired_executions = counted(orig_e)
     db_api.get_superfluous_executions = counted(orig_s)
+    # fault injection (a share of the populations): deleting one eligible
+    # root fails every time (a lock wait time-out, say); the evaluation must
+    # still terminate and leave complete trees
+    fin0, exp0, rem0, extra0 = reference(trees, now, older_than, mfe,
+                                         ignored)
+    faulty = None
+    orig_d = db_api.delete_workflow_execution
+    if prng.random() < 0.15 and (exp0 or (extra0 and rem0)):
+        faulty = prng.choice(exp0 or rem0)['root']
+
+        def failing_delete(id, *a, **kw):
+            if id == faulty:
+                fault_hits[0] += 1
+                raise RuntimeError('injected: cannot delete %s' % id)
+            return orig_d(id, *a, **kw)
+        db_api.delete_workflow_execution = failing_delete
+    fault_hits = [0]
     err = None
     try:
         expiration_policy.run_execution_expiration_policy(None, None)
@@ -183,6 +200,7 @@ def one(pseed, res):
     finally:
         db_api.get_expired_executions = orig_e
         db_api.get_superfluous_executions = orig_s
+        db_api.delete_workflow_execution = orig_d
         for k in ('older_than', 'max_finished_executions', 'batch_size',
                   'ignored_states'):
             CONF.clear_override(k, G)
@@ -205,7 +223,13 @@ def one(pseed, res):
         viol('does-not-terminate', 'the evaluation did not finish within '
              '%d fetches for %d root executions' % (calls[0], n))
         return
-    if err is not None:
+    if faulty is not None:
+        res['monitor_evaluations']['fault-terminates'] = \
+            res['monitor_evaluations'].get('fault-terminates', 0) + 1
+        # under the injected fault only termination (above), eligibility
+        # and completeness of the trees are judged
+        err = err or 'fault'
+    elif err is not None:
         viol('evaluation-fails-%s' % type(err).__name__,
              'the evaluation failed with %s: %s' % (type(err).__name__,
                                                     str(err)[:120]))
